@@ -75,7 +75,11 @@ def obligations():
                    and c[:2] == ("cmp", ("NotEq",)) and c[2][0][:1] == ("callres",) and c[2][0][2] == "len" and c[2][1] == fx.C(0))
             if okg:
                 ml = b[2][1]
-                okg = ml[0] == "ite" and ml[2] == _attr(SELF, "max_leaves")
+                # the leaf budget is the user's max_leaves, and the NUMBER OF SAMPLES when none is given (nothing else caps the tree)
+                dflt = fx.strip(ml[3]) if ml[0] == "ite" and len(ml) > 3 else None
+                is_n = (isinstance(dflt, tuple) and ((dflt[0] == "item" and dflt[1][:1] == ("attr",) and dflt[1][2] == "shape" and dflt[2] == fx.C(0))
+                                                      or (dflt[:1] == ("callres",) and dflt[2] == "len" and len(dflt[3]) == 1)))
+                okg = ml[0] == "ite" and ml[2] == _attr(SELF, "max_leaves") and is_n
                 queue = c[2][0][3][0]
         ob("loop guard: last_gain > 0 and n_leaves < max_leaves (n when None) and the queue is not empty", okg, {"guard": fx.show(g)[:300]})
         if not okg:
